@@ -1090,6 +1090,10 @@ func longSignSection(o *hlib.Out, seed uint64, rng *hlib.Rng) {
 			found := false
 			for from := 0; from < 8000 && !found; from += 200 {
 				for _, h := range searchLong(k, prefix, from, from+200, 20) {
+					if h.iters == 0 { // not derivable from ExpandMask at all: reported by emitLongSign
+						o.Case()
+						emitLongSign(o, k, h.msg, 0, "live-searched")
+					}
 					if h.iters >= 20 && h.iters <= 30 {
 						o.Case()
 						emitLongSign(o, k, h.msg, 0, "live-searched")
@@ -1110,7 +1114,7 @@ func longSignSection(o *hlib.Out, seed uint64, rng *hlib.Rng) {
 		return
 	}
 	for _, ps := range psets {
-		min := map[string]int{"44": 26, "65": 40, "87": 30}[ps.name]
+		min := map[string]int{"44": 26, "65": 36, "87": 26}[ps.name]
 		n := 20_000 * *hlib.FlagScale
 		cnt := 0
 		for _, h := range searchLong(keys[ps.name], fmt.Sprintf("c10-live-%d-", seed), 0, n, min) {
